@@ -514,14 +514,19 @@ impl<'a> Sim<'a> {
             }
             PS => {
                 let Some(AnyMessage::PeerSharing(p::peersharing::Message::ShareRequest(n))) = req else { return };
-                let k = ch.draw("ps.count", (n as u64).min(6) + 1);
-                let pool = self.peers.len() as u64 + 3;
-                let addrs = (0..k)
-                    .map(|_| {
-                        let j = ch.draw("ps.addr", pool) as u32;
-                        p::peersharing::PeerAddress::V4(std::net::Ipv4Addr::from_bits(0x0a000001 + j), 3000 + j as u16)
-                    })
-                    .collect();
+                // one reply in eight uses the whole amount asked for, with addresses no other peer hands out
+                let addrs = if ch.draw("ps.full", 8) == 7 {
+                    (0..n as u32).map(|j| p::peersharing::PeerAddress::V4(std::net::Ipv4Addr::from_bits(0x0b000000 + ((i as u32) << 8) + j), 3000)).collect()
+                } else {
+                    let k = ch.draw("ps.count", (n as u64).min(6) + 1);
+                    let pool = self.peers.len() as u64 + 3;
+                    (0..k)
+                        .map(|_| {
+                            let j = ch.draw("ps.addr", pool) as u32;
+                            p::peersharing::PeerAddress::V4(std::net::Ipv4Addr::from_bits(0x0a000001 + j), 3000 + j as u16)
+                        })
+                        .collect()
+                };
                 AnyMessage::PeerSharing(p::peersharing::Message::SharePeers(addrs))
             }
             BF => {
